@@ -5,6 +5,7 @@ seeded/<id>/meta.json, which obligations reported the change (later lines for th
 import sys, re, json, os
 ROOT = os.path.dirname(os.path.dirname(os.path.abspath(__file__)))
 notes = {}; res = {}
+KF = set(re.findall(r'^known: property=\S+ obligation=(\S+)', open(os.path.join(ROOT, 'known_findings.txt')).read(), re.M))   # expected to fail: not a detection
 for a in sys.argv[1:]:
     if a.startswith('--note='):
         k, v = a[7:].split('=', 1); notes[k] = v; continue
@@ -15,7 +16,7 @@ for a in sys.argv[1:]:
         props = re.findall(r'(C\d\d):rc=(\d+):viol=(\d+)\[([^\]]*)\]', rest)
         res.setdefault(sid, {})
         for p, rc, nv, obs in props:
-            res[sid][p] = dict(rc=int(rc), obs=sorted({o.split(':')[0] for o in obs.split() if o.split(':')[1].startswith('violation')}), tool=sorted({o.split(':')[0] for o in obs.split() if o.split(':')[1] == 'tool-error'}))
+            res[sid][p] = dict(rc=int(rc), obs=sorted({o.split(':')[0] for o in obs.split() if o.split(':')[1].startswith('violation') and o.split(':')[0] not in KF}), tool=sorted({o.split(':')[0] for o in obs.split() if o.split(':')[1] == 'tool-error'}))
 for sid, pr in sorted(res.items()):
     f = os.path.join(ROOT, 'seeded', sid, 'meta.json')
     if not os.path.exists(f): print('no meta for', sid); continue
